@@ -1,0 +1,47 @@
+//go:build verif
+
+package unshare
+
+// Contracts for gocv (see /verif/DESIGN.md). Comment-only; compiled only with
+// the build tag "verif". Kernel models T/W (kill, wait4) are in /verif/spec/kernel_T.contracts.
+
+//@ func runner/unshare.(*Runner).println
+//@   assumed "writes to stderr only"
+//@   pure
+
+//@ func runner/unshare.killAll props C12
+//@   arith bv
+//@   assigns T.kill_count, T.kill_last_pid, T.kill_last_sig
+//@   ensures T.kill_count == old(T.kill_count) + 1 && T.kill_last_pid == -pgid && T.kill_last_sig == 9
+
+//@ func runner/unshare.collectZombie props C12
+//@   arith bv
+//@   assigns nothing
+//@   loop 0: invariant true
+
+// deferred clean-up: kill the whole group, then reap until wait4 fails
+//@ func runner/unshare.(*Runner).Run$2 props C12
+//@   arith bv
+//@   assigns result.SetUpTime, result.RunningTime, T.kill_count, T.kill_last_pid, T.kill_last_sig
+//@   ensures T.kill_count == old(T.kill_count) + 1 && T.kill_last_pid == -pgid && T.kill_last_sig == 9
+//@   ensures result.Status == old(result.Status) && result.ExitStatus == old(result.ExitStatus) && result.Error == old(result.Error)
+//@   callsite collectZombie: assert T.kill_count == old(T.kill_count) + 1
+
+//@ func go:runner/unshare.(*Runner).Run$1
+//@   assumed "cancellation watcher: kills the group when the context ends; verified separately, no interleaving semantics"
+//@   pure
+
+// C04: the launch always drops capabilities, sets no_new_privs and asks for exactly the unshare namespaces.
+// C09: the verdict equals the documented status table (limits by measured usage first).
+// C12: after a successful start every return path kills the group and reaps it.
+//@ func runner/unshare.(*Runner).Run props C04 C09 C12
+//@   arith bv
+//@   requires r != nil && c != nil && len(r.Seccomp) <= 65535
+//@   requires forall j int :: soff(r.Files) <= j && j < soff(r.Files) + len(r.Files) ==> cell(r.Files, j) < 2147483648 || cell(r.Files, j) == 18446744073709551615
+//@   requires r.ExecFile < 2147483648 && len(r.Files) < 1048576
+//@   requires forall j int, k int :: 0 <= j && j < k && k < len(r.Mounts) ==> r.Mounts[j].Target != r.Mounts[k].Target
+//@   requires forall k int :: 0 <= k && k < len(r.Mounts) ==> r.Mounts[k].Target != nil && r.Mounts[k].Flags & 32 == 0 && r.Mounts[k].Target != elemaddr(forkexec.slash, 0)
+//@   assigns T.kill_count, T.kill_last_pid, T.kill_last_sig, P.st, S._all, W._all, FD._all, K._all
+//@   callsite (*Runner).Start: assert @C04 r.NoNewPrivs && r.DropCaps && r.CloneFlags == 906100736 && r.UnshareCgroupAfterSync && !r.Ptrace
+//@   ensures @C09 int(result.Status) == 8 ==> len(result.Error) > 0
+//@   loop 0: invariant r == old(r) && int(status) == 1 && cancel != nil
